@@ -174,14 +174,35 @@ func suiteBytes(c *Ctx) {
 		}
 		// (b) the worker path of a real node
 		var o2 string
+		encOK := true
+		var enc string
 		if o1 == "readable" {
-			enc := node.enc.msg(raw)
+			func() {
+				defer func() {
+					if rec := recover(); rec != nil {
+						encOK = false
+					}
+				}()
+				enc = node.enc.msg(raw)
+			}()
+			if !encOK {
+				c.Violation("C12", "gate-accepts-unreadable-field", fmt.Sprintf("content (%d bytes, mutation %s) passes the readability gate although one of its fields cannot be read", len(content), mut), fmt.Sprintf("content=%x", content))
+			}
+		}
+		if o1 == "readable" && encOK {
 			spi, out := node.Deliver(raw)
 			line := "0 deliver " + enc
 			if spi != "" {
 				line += " " + spi
 			}
 			c.Emit(line, out)
+			o2 = "ok"
+			if node.Panicked != "" {
+				o2 = "panic"
+			}
+		} else if o1 == "readable" {
+			_, out := node.Deliver(raw)
+			c.Emit("0 garbage-accepted-by-gate", out)
 			o2 = "ok"
 			if node.Panicked != "" {
 				o2 = "panic"
@@ -216,9 +237,35 @@ func suiteBytes(c *Ctx) {
 			pb, pm = mutateBytes(r, pb)
 		}
 		o3 := classify(func() { leanhelix.GetMemberIdsFromBlockProof(pb) })
+		prevPb := []byte(nil)
+		if r.Intn(2) == 0 { // the previous proof is received bytes too
+			prevPb = proofSeeds[r.Intn(len(proofSeeds))]
+			for k := 0; k < 1+r.Intn(2); k++ {
+				prevPb, _ = mutateBytes(r, prevPb)
+			}
+		}
 		o4 := classify(func() {
-			node.Worker.ValidateBlockConsensus(context.Background(), &FakeBlock{H: uint64(r.Intn(10))}, pb, nil, nil, r.Intn(2) == 0)
+			node.Worker.ValidateBlockConsensus(context.Background(), &FakeBlock{H: uint64(r.Intn(10))}, pb, nil, prevPb, r.Intn(2) == 0)
 		})
+		// a fully valid proof with a damaged previous proof: the seed check reads the previous proof
+		if i%4 == 0 {
+			o5 := classify(func() {
+				h := uint64(1 + r.Intn(3))
+				blk := &FakeBlock{H: h, Id: 77}
+				ref := &protocol.BlockRefBuilder{MessageType: protocol.LEAN_HELIX_COMMIT, InstanceId: 100, BlockHeight: primitives.BlockHeight(h), BlockHash: blockHash(blk)}
+				var nodes []*protocol.SenderSignatureBuilder
+				for k := 0; k < 4; k++ {
+					nodes = append(nodes, &protocol.SenderSignatureBuilder{MemberId: memberId(k), Signature: node.KM.SignAs(memberId(k), h, ref.Build().Raw())})
+				}
+				good := (&protocol.BlockProofBuilder{BlockRef: ref, Nodes: nodes, RandomSeedSignature: []byte{1, 2, 3}}).Build().Raw()
+				dmg, _ := mutateBytes(r, proofSeeds[r.Intn(len(proofSeeds))])
+				dmg, _ = mutateBytes(r, dmg)
+				node.Worker.ValidateBlockConsensus(context.Background(), blk, good, &FakeBlock{H: h - 1}, dmg, r.Intn(2) == 0)
+			})
+			if o5 == "panic" {
+				o4 = "panic"
+			}
+		}
 		c.Class("proof/" + pm + "/" + o3 + "/" + o4)
 		if o3 == "panic" || o4 == "panic" {
 			c.Violation("C12", "blockproof-panic", fmt.Sprintf("GetMemberIdsFromBlockProof/ValidateBlockConsensus panicked on %d proof bytes (mutation %s)", len(pb), pm), fmt.Sprintf("proof=%x", pb))
